@@ -444,8 +444,9 @@ class SpooledStringIO(SpooledIOBase):
             self._traverse_codepoints(self.tell(), pos)
             self._tell = start_pos + pos
         elif mode == os.SEEK_END:
-            self.buffer.seek(0)
+            # NB: take the length first, it puts the position back
             dest_position = self.len - pos
+            self.buffer.seek(0)
             self._traverse_codepoints(0, dest_position)
             self._tell = dest_position
         else:
